@@ -49,6 +49,8 @@ def check(ctx: Ctx):
     ctx.rule("R-ITERMUT", "a list / dict / set is not structurally modified while it is iterated directly")
     ctx.rule("R-PRESENCE", "callback tables whose key presence means 'subscribed' are only indexed under a membership test (no auto-vivification)")
     ctx.rule("R-ECHO", "updates received from the directory are applied locally with publish=False; the directory mirrors into its own discovery with publish=False")
+    ctx.rule("R-KEEP", "a subscription recorded by the directory is dropped only on the subscriber's own request or when the subscriber is removed; "
+                       "a local view is forgotten only together with the unsubscription sent to the directory")
     ctx.rule("R-EVENTS", "event literals compared by subscribers are literals that discovery fires")
     ctx.rule("R-CALLBACKS", "callbacks fire only on a change, for every registered callback, and one-shot callbacks are dropped afterwards")
 
@@ -342,6 +344,93 @@ def check(ctx: Ctx):
                     lit = cmp_.comparators[0].value
                     ctx.check(lit in fired, "R-EVENTS", f"{f.fq}: consumes '{lit}'", f, cmp_, f"event '{lit}' is compared here but discovery never fires it")
     ctx.floor("R-EVENTS", 8)
+    _keep(ctx, repo)
+
+
+_SHRINK = {"pop", "remove", "discard", "clear", "popitem", "difference_update", "intersection_update", "symmetric_difference_update", "__delitem__"}
+
+
+def _keep(ctx, repo):
+    """R-KEEP.  (1) Directory: the three by-name subscription tables and the all-agents set only lose an entry in
+    unsubscribe_from_K (the subscriber parameter, from the entry of the named target) or in unregister_agent (the removed
+    agent's own discovery name); nothing else pops / deletes / clears / rebinds them.  (2) Discovery.unsubscribe_K: local
+    data of kind K is dropped only in a block that also sends SubscribeKMessage(.., False)."""
+    dcls = repo.cls(MOD, "Directory")
+    tables = {"_subscription_agents", "_subscription_computations", "_subscription_replicas", "_subscription_all_agents"}
+
+    def table_of(e, aliases):
+        """table name when expression e denotes a table, an entry of a table, or a local alias of an entry"""
+        if isinstance(e, ast.Subscript):
+            e = e.value
+        if isinstance(e, ast.Attribute) and isinstance(e.value, ast.Name) and e.value.id == "self" and e.attr in tables:
+            return e.attr
+        if isinstance(e, ast.Name) and e.id in aliases:
+            return aliases[e.id]
+        return None
+    unsub = {"unsubscribe_from_agent": "_subscription_agents", "unsubscribe_from_computation": "_subscription_computations",
+             "unsubscribe_from_replicas": "_subscription_replicas"}
+    n = 0
+    for mname, f in dcls.methods.items():
+        if mname == "__init__":
+            continue
+        aliases = {}
+        for x in ast.walk(f.node):
+            if isinstance(x, ast.For) and isinstance(x.iter, ast.Call) and isinstance(x.iter.func, ast.Attribute) and x.iter.func.attr in ("items", "values") \
+                    and table_of(x.iter.func.value, {}):
+                tgt = x.target.elts[-1] if isinstance(x.target, ast.Tuple) else x.target
+                if isinstance(tgt, ast.Name):
+                    aliases[tgt.id] = table_of(x.iter.func.value, {})
+            if isinstance(x, ast.Assign) and isinstance(x.targets[0], ast.Name) and table_of(x.value, {}) and isinstance(x.value, (ast.Subscript, ast.Attribute)):
+                aliases[x.targets[0].id] = table_of(x.value, {})
+        sites = []
+        for x in ast.walk(f.node):
+            if isinstance(x, ast.Call) and isinstance(x.func, ast.Attribute) and x.func.attr in _SHRINK and table_of(x.func.value, aliases):
+                sites.append((x, table_of(x.func.value, aliases), x.func.attr, x.args[0] if x.args else None, x.func.value))
+            elif isinstance(x, ast.Delete):
+                for t in x.targets:
+                    if table_of(t, aliases):
+                        sites.append((x, table_of(t, aliases), "del", None, t))
+            elif isinstance(x, (ast.Assign, ast.AugAssign)):
+                for t in (x.targets if isinstance(x, ast.Assign) else [x.target]):
+                    if isinstance(t, ast.Attribute) and table_of(t, {}):
+                        sites.append((x, table_of(t, {}), "rebind", None, t))
+                    elif isinstance(t, ast.Subscript) and table_of(t, {}) and not (isinstance(x, ast.Assign) and isinstance(x.value, ast.Name) and x.value.id in aliases):
+                        sites.append((x, table_of(t, {}), "entry rebind", None, t))
+        for node, tab, op, arg, recv in sites:
+            n += 1
+            ctx.touch(f)
+            if mname in unsub:
+                ok = op == "remove" and tab == unsub[mname] and arg is not None and norm(arg) == f.params[1] and isinstance(recv, ast.Subscript) and norm(recv.slice) == f.params[2]
+                why = f"{mname} may only remove its subscriber `{f.params[1]}` from the entry of `{f.params[2]}` in {unsub[mname]}"
+            elif mname == "unregister_agent":
+                d = {a.targets[0].id: norm(a.value) for a in ast.walk(f.node) if isinstance(a, ast.Assign) and isinstance(a.targets[0], ast.Name)}
+                ok = op in ("remove", "discard") and arg is not None and isinstance(arg, ast.Name) and d.get(arg.id) == f"'_discovery_' + {f.params[1]}"
+                why = ("unregister_agent may only drop the removed agent's own subscriptions ('_discovery_' + agent); the subscriptions of others *to* this agent must survive, "
+                       "or a later re-registration is never notified to them")
+            else:
+                ok, why = False, "only unsubscribe_from_* and unregister_agent may shrink a subscription table"
+            ctx.check(ok, "R-KEEP", f"Directory.{mname}: {op} on {tab}", f, node, why)
+    ctx.floor("R-KEEP", 6)
+    cap = {"agent": "Agent", "computation": "Computation", "replica": "Replica"}
+    data = {"agent": "_agents_data", "computation": "_computations_data", "replica": "_replicas_data"}
+    for k in KINDS:
+        f = repo.func(MOD, f"Discovery.unsubscribe_{k}")
+        ff = FuncFacts(f.node)
+        sends = [c for c in ast.walk(f.node) if isinstance(c, ast.Call) and call_name(c) == f"Subscribe{cap[k]}Message" and norm(c.args[-1]) == "False"]
+        sfacts = [{(norm(t), p_) for t, p_ in facts_at(ff, c)} for c in sends]
+        for x in ast.walk(f.node):
+            drop = None
+            if isinstance(x, ast.Call) and isinstance(x.func, ast.Attribute) and x.func.attr in _SHRINK:
+                r = x.func.value.value if isinstance(x.func.value, ast.Subscript) else x.func.value
+                if isinstance(r, ast.Attribute) and r.attr in data.values() and is_self_attr(r, r.attr):
+                    drop = x
+            elif isinstance(x, ast.Delete) and any(isinstance(t, ast.Subscript) and isinstance(t.value, ast.Attribute) and t.value.attr in data.values() for t in x.targets):
+                drop = x
+            if drop is None:
+                continue
+            fs = {(norm(t), p_) for t, p_ in facts_at(ff, drop)}
+            ctx.check(any(fs == sf for sf in sfacts), "R-KEEP", f"Discovery.unsubscribe_{k}: local view dropped only when unsubscribing on the directory", f, drop,
+                      "the local view is wiped although this agent stays subscribed (callbacks remain, nothing is sent to the directory): the directory never re-sends what was dropped")
 
 
 def _is_append_receiver(func_node, sub):
@@ -353,6 +442,10 @@ def _is_append_receiver(func_node, sub):
 
 _D = "pydcop/infrastructure/discovery.py"
 VARIANTS = [
+    ("dir_unregister_pops_subscribers", _D, "        interested_agents = self._subscription_agents[agent] | \\\n", "        interested_agents = self._subscription_agents.pop(agent, set()) | \\\n", "break", "R-KEEP"),
+    ("dir_unsubscribe_clears_entry", _D, "            self._subscription_computations[computation].remove(subscriber)", "            self._subscription_computations[computation].clear()", "break", "R-KEEP"),
+    ("partial_unsubscribe_wipes_view", _D, "                        SubscribeReplicaMessage(replica, False))\n                    # remove all knowledge of current replicas as we are not\n                    #  subscribed any more\n                    self._replicas_data.pop(replica, None)\n",
+     "                        SubscribeReplicaMessage(replica, False))\n                self._replicas_data.pop(replica, None)\n", "break", "R-KEEP"),
     ("unsub_replica_wrong_kind", _D, "                    self.discovery_computation.send_to_directory(\n                        SubscribeReplicaMessage(replica, False))\n                    # remove all knowledge",
      "                    self.discovery_computation.send_to_directory(\n                        SubscribeComputationMessage(replica, False))\n                    # remove all knowledge", "break", "R-PROTO.d"),
     ("unregister_agent_itermut", _D, "                for cb, oneshot in self._agent_cbs[agent][:]:\n", "                for cb, oneshot in self._agent_cbs[agent]:\n", "break", "R-ITERMUT"),
